@@ -400,7 +400,78 @@ fn walk(dir: &std::path::Path, out: &mut Vec<std::path::PathBuf>) {
     }
 }
 
+/// The hand-written codec of SecretKeyRatchet (group/secret_tree.rs), out_of_order build: the field
+/// sequence is read off the three impls (size, encode, decode), which must agree with each other;
+/// the descriptor is built from it and must be the one of the CUSTOM table.
+fn ratchet_descriptor(repo: &str) -> String {
+    let path = format!("{repo}/mls-rs/src/group/secret_tree.rs");
+    let text = std::fs::read_to_string(&path).unwrap_or_else(|e| die(format!("{path}: {e}")));
+    let file = syn::parse_file(&text).unwrap_or_else(|e| die(format!("{path}: {e}")));
+    let flat = |t: &dyn quote::ToTokens| quote::quote!(#t).to_string().replace(' ', "");
+    let other_build = |attrs: &[Attribute]| attrs.iter().any(|a| quote::quote!(#a).to_string().replace(' ', "").contains("cfg(not(feature=\"out_of_order\"))"));
+    let mut size: Option<Vec<String>> = None;
+    let mut enc: Option<Vec<String>> = None;
+    let mut dec: Option<Vec<String>> = None;
+    let part = |s: &str| -> String {
+        match s {
+            "mls_rs_codec::byte_vec::mls_encoded_len(&self.secret)" | "mls_rs_codec::byte_vec::mls_encode(&self.secret,writer)?;" | "secret:mls_rs_codec::byte_vec::mls_decode(reader)?" => "secret:TBytes".into(),
+            "self.generation.mls_encoded_len()" | "self.generation.mls_encode(writer)?;" | "generation:u32::mls_decode(reader)?" => "generation:TU 4".into(),
+            "mls_rs_codec::iter::mls_encoded_len(self.history.values())" | "mls_rs_codec::iter::mls_encode(self.history.values(),writer)" => "history:TVec T_MessageKeyData".into(),
+            x => die(format!("SecretKeyRatchet codec: part `{x}`")),
+        }
+    };
+    for it in &file.items {
+        let Item::Impl(im) = it else { continue };
+        if flat(&im.self_ty) != "SecretKeyRatchet" || other_build(&im.attrs) {
+            continue;
+        }
+        let Some((_, tr, _)) = &im.trait_ else { continue };
+        let body: Vec<Stmt> = im.items.iter().find_map(|i| if let ImplItem::Fn(f) = i { Some(f.block.stmts.clone()) } else { None }).unwrap_or_default();
+        match flat(tr).as_str() {
+            "MlsSize" => {
+                // let len = A + B;  return len + C;   (the statement of the other build is dropped)
+                let st: Vec<&Stmt> = body.iter().filter(|s| match s { Stmt::Expr(Expr::Return(r), _) => !other_build(&r.attrs), _ => true }).collect();
+                if st.len() != 2 {
+                    die(format!("SecretKeyRatchet::mls_encoded_len has {} statements", st.len()));
+                }
+                let mut v = vec![];
+                let f0 = flat(st[0]);
+                let sum = f0.strip_prefix("letlen=").and_then(|r| r.strip_suffix(';')).unwrap_or_else(|| die(format!("SecretKeyRatchet size: `{f0}`")));
+                for p in sum.split('+') {
+                    v.push(part(p));
+                }
+                let f1 = flat(st[1]);
+                let last = f1.strip_prefix("#[cfg(feature=\"out_of_order\")]returnlen+").and_then(|r| r.strip_suffix(';')).unwrap_or_else(|| die(format!("SecretKeyRatchet size: `{f1}`")));
+                v.push(part(last));
+                size = Some(v);
+            }
+            "MlsEncode" => enc = Some(body.iter().map(|s| part(&flat(s))).collect()),
+            "MlsDecode" => {
+                let f = body.iter().map(|s| flat(s)).collect::<String>();
+                let inner = f.strip_prefix("Ok(Self{").and_then(|r| r.strip_suffix("})")).unwrap_or_else(|| die(format!("SecretKeyRatchet decode: `{f}`")));
+                let hist = "#[cfg(feature=\"out_of_order\")]history:mls_rs_codec::iter::mls_decode_collection(reader,|data|{letmutitems=LargeMap::default();while!data.is_empty(){letitem=MessageKeyData::mls_decode(data)?;items.insert(item.generation,item);}Ok(items)})?,";
+                let Some(head) = inner.strip_suffix(hist) else { die(format!("SecretKeyRatchet decode of the history: `{inner}`")) };
+                let mut v: Vec<String> = head.trim_end_matches(',').split(',').map(|p| part(p)).collect();
+                v.push("history:TVec T_MessageKeyData".into());
+                dec = Some(v);
+            }
+            _ => {}
+        }
+    }
+    let (size, enc, dec) = (size.unwrap_or_else(|| die("SecretKeyRatchet: no MlsSize".into())), enc.unwrap_or_else(|| die("SecretKeyRatchet: no MlsEncode".into())), dec.unwrap_or_else(|| die("SecretKeyRatchet: no MlsDecode".into())));
+    if size != enc || enc != dec {
+        die(format!("SecretKeyRatchet: size {size:?}, encode {enc:?} and decode {dec:?} disagree"));
+    }
+    let tys: Vec<&str> = enc.iter().map(|f| f.split_once(':').unwrap().1).collect();
+    format!("Definition T_SecretKeyRatchet : ty := tstruct [{}].", tys.join("; "))
+}
+
 pub fn run(repo: &str, out: &str) {
+    let derived = ratchet_descriptor(repo);
+    match CUSTOM.iter().find(|c| c.0 == "SecretKeyRatchet") {
+        Some((_, _, text)) if *text == derived => {}
+        _ => die(format!("SecretKeyRatchet: the descriptor read off the source is `{derived}`")),
+    }
     let mut tr = Tr { items: BTreeMap::new(), uses: BTreeMap::new(), aliases: BTreeMap::new(), consts: BTreeMap::new(), emitted: BTreeSet::new(), in_progress: BTreeSet::new(), out: String::new(), table: vec![] };
     for krate in ["mls-rs-core/src", "mls-rs/src"] {
         let mut files = vec![];
